@@ -235,6 +235,14 @@ def run_task(args):
     out = {'relation': relname, 'shard': shard, 'error': None}
     try:
         mod = importlib.import_module(f'vf.props.{prop.lower()}')
+        if relname.endswith('@guided'):
+            from vf import guided
+            rel = next(r for r in mod.RELATIONS
+                       if r.name == relname[:-len('@guided')])
+            res = guided.run_guided(prop, rel, tier, seed, shard, nshards,
+                                    known_keys, scale)
+            res['wall_s'] = time.monotonic() - t0
+            return res
         rel = next(r for r in mod.RELATIONS if r.name == relname)
         ctx = Ctx(prop, relname, tier, seed, shard, nshards, set(known_keys))
         ctx.deadline = t0 + rel.budget_s.get(tier, 600)
@@ -475,13 +483,22 @@ def main(argv=None):
 
     # 2. generated search ----------------------------------------------------
     rels = [r for r in mod.RELATIONS
-            if not a.relation or r.name in a.relation]
+            if not a.relation or r.name in a.relation
+            or r.name + '@guided' in a.relation]
     tasks = []
     for r in rels:
         ns = r.shards[a.tier]
+        if a.relation and r.name not in a.relation:
+            ns = 0                    # only the guided tier was asked for
         for s in range(ns):
             tasks.append((prop, r.name, a.tier, seed, s, ns, known_keys,
                           a.scale))
+        # coverage-guided tier (vf/guided.py), where the relation asks for it
+        g = getattr(r, 'guided', {}).get(a.tier)
+        if g:
+            for s in range(g[0]):
+                tasks.append((prop, r.name + '@guided', a.tier, seed, s, g[0],
+                              known_keys, a.scale))
     results = []
     if tasks:
         # parent-side watchdog: a worker stuck inside compiled code cannot be
@@ -536,7 +553,7 @@ def main(argv=None):
         excluded.update(res['excluded'])
         budget = budget or res['budget_exhausted']
         for f in res['failures']:
-            f = dict(f, relation=res['relation'])
+            f = dict(f, relation=res['relation'].split('@')[0])
             violations.append(f)
 
     # distinct root causes by key
@@ -613,6 +630,8 @@ def main(argv=None):
         return 2
     # vacuity guard: a relation that claims cases but has no non-trivial one
     for name, br in by_rel.items():
+        if name.endswith('@guided'):
+            continue       # (an add-on to the relation's own random tier)
         if br['evaluations'] and not (br['nt'] or br['nt_extra']):
             print(f'HARNESS-ERROR relation {name} produced no non-trivial case')
             return 2
